@@ -17,7 +17,7 @@ func ruleOptGate(c *Ctx) {
 	c.Floor(R, 3)
 	for _, pk := range []string{"code39", "code93"} {
 		fn := c.P.Func(pk + ".EncodeWithColor")
-		gc := c.P.Func(pk + ".getChecksum")
+		gc := checkCharFunc(c, pk)
 		if fn == nil || gc == nil {
 			c.Anchor(R, pk+".EncodeWithColor/getChecksum", "function not found")
 			continue
